@@ -157,6 +157,62 @@ def exec_exact(case):
     return ev
 
 
+def exec_zeros(case):
+    """Exact zeros: a component that vanishes in one mode / in every mode, a zero row.  Every call is made in both
+    argument orders; the event records whether it raised (and what) or what it returned."""
+    import tensorly as tl
+    from tensorly.metrics.factors import congruence_coefficient
+    from tensorly.metrics.similarity import correlation_index
+    from tensorly.cp_tensor import cp_permute_factors
+    c = case["cfg"]
+    R, M = c["R"], c["M"]
+    A = [np.array(m, dtype=float) for m in c["A"]]
+    B = [np.array(m, dtype=float) for m in c["B"]]
+    w = np.array(c["w"], dtype=float)
+    ev = {"id": case["id"], "kind": "zeros", "cfg": c, "corr": [], "cong": [], "permute": []}
+    for swap in (False, True):
+        P, Q = (B, A) if swap else (A, B)
+        for m in METHODS:
+            rec = {"method": m, "swap": swap, "raised": False, "exc": "", "val": 0}
+            try:
+                with np.errstate(all="ignore"):
+                    rec["val"] = qi(correlation_index([tl.tensor(x.copy()) for x in P], [tl.tensor(x.copy()) for x in Q], method=m), S6)
+            except Exception as ex:
+                rec.update(raised=True, exc=type(ex).__name__)
+            ev["corr"].append(rec)
+        for abs_ in (True, False):
+            for form in (["list", "bare"] if M == 1 else ["list"]):
+                a = tl.tensor(P[0].copy()) if form == "bare" else [tl.tensor(x.copy()) for x in P]
+                b = tl.tensor(Q[0].copy()) if form == "bare" else [tl.tensor(x.copy()) for x in Q]
+                rec = {"abs": abs_, "form": form, "swap": swap, "raised": False, "exc": "", "val": 0, "perm": []}
+                try:
+                    with np.errstate(all="ignore"):
+                        val, perm = congruence_coefficient(a, b, absolute_value=abs_)
+                    rec.update(val=qi(val, S6), perm=[int(x) for x in perm])
+                except Exception as ex:
+                    rec.update(raised=True, exc=type(ex).__name__)
+                ev["cong"].append(rec)
+    srcs = {"A": (np.ones(R), A), "B": (w, B)}
+    for ref, target in (("A", "B"), ("B", "A")):
+        rec = {"form": "single", "ref": ref, "target": target, "raised": False, "exc": "", "perm": [], "exact": True,
+               "factors": [], "weights": [], "eqf": False, "eqw": False}
+        try:
+            with np.errstate(all="ignore"):
+                t, perms = cp_permute_factors(_cp(*srcs[ref]), _cp(*srcs[target]))
+            perm = [int(x) for x in np.asarray(perms[0]).ravel()]
+            facs, exact = [], True
+            for f in t.factors:
+                rows, ex = _rows(f)
+                facs.append(rows)
+                exact = exact and ex
+            wd, ex = ints(t.weights)
+            rec.update(perm=perm, factors=facs, weights=wd, exact=bool(exact and ex))
+        except Exception as ex:
+            rec.update(raised=True, exc=type(ex).__name__)
+        ev["permute"].append(rec)
+    return ev
+
+
 def _unit_cols(m):
     return m / np.sqrt((m * m).sum(axis=0))
 
@@ -297,7 +353,7 @@ def exec_levexact(case):
     return {"id": case["id"], "kind": "levexact", "cfg": c, "out": _lev_out(np.array(c["A"], dtype=float))}
 
 
-EXEC = {"exact": exec_exact, "generic": exec_generic, "metric": exec_metric, "lev": exec_lev, "levexact": exec_levexact}
+EXEC = {"zeros": exec_zeros, "exact": exec_exact, "generic": exec_generic, "metric": exec_metric, "lev": exec_lev, "levexact": exec_levexact}
 
 
 def execute(case):
